@@ -268,6 +268,7 @@ def check(prop_id, tier, seed):
 
     # ---- replay of counter-models against the real code
     exp_bases = set(_re.sub(r"#\d+$", "", n) for n in exp_names)
+    units_with_failed_establish = set(o["unit"] for o in sat_obs if o.get("kind") == "inv-establish")
     for o in sat_obs:
         payload = {"obligation": o["name"], "unit": o["unit"], "model": o.get("model"),
                    "solver": o.get("backend"), "status": o["status"]}
@@ -285,6 +286,11 @@ def check(prop_id, tier, seed):
         #  defaults: they are conditions on how the code is written, sufficient but not necessary for the property, so a
         #  failure is a verdict only together with a failing input from their replay task)
         advisory = o["name"].startswith("lemma:grammar.shapes/") or o.get("advisory", False)
+        # a loop invariant that does not even hold on entry means that the loop contract was written for a differently
+        # organised loop (sums prepared before the loop, another accumulation scheme): the proof attempt fails, which is not
+        # a statement about the property - every failed obligation of such a unit needs a failing input to count
+        if o["unit"] in units_with_failed_establish:
+            advisory = True
         # path ordinals (#k) are renumbered when the code changes: a clause counts as proved on the reference tree when
         # all its instances were discharged there (the baseline lists only discharged obligations and is recorded from a
         # run without undecided ones)
@@ -338,8 +344,8 @@ def check(prop_id, tier, seed):
         "backends": backend_counts,
         "solver_time_s": round(solver_time, 2),
         "functions_under_contract": sorted(functions.values(), key=lambda f: f["target"]),
-        "units": [{"unit": u["unit"], "target": u["target"], "paths": u["paths"], "outcomes": u["outcomes"],
-                   "obligations": len(u["obligations"]), "gen_time_s": u["gen_time"]} for u in ures],
+        "units": [{"unit": u["unit"], "target": u["target"], "paths": u.get("paths", 0), "outcomes": u.get("outcomes", {"engine crash": 1}),
+                   "obligations": len(u.get("obligations", [])), "gen_time_s": u.get("gen_time", 0)} for u in ures],
         "undecided": undecided[:50],
         "vacuity_guards": {"cover_queries": len(covers),
                            "reachable": sum(1 for o in covers if o["status"] == "reachable"),
